@@ -172,6 +172,9 @@ def run_tlc(module, cfg, name, workers=8, timeout=900, env=None, simulate=None,
             r.inv_violated = m.group(1)
         if line.startswith("Error: Temporal properties were violated"):
             r.inv_violated = "temporal"
+        m = re.match(r"^Error: Temporal property (\S+) was violated", line)
+        if m:
+            r.inv_violated = m.group(1)
     if simulate:
         m = re.search(r"The number of states generated: (\d+)", out)
         if m:
